@@ -68,7 +68,8 @@ CORE_RULE = ("One evaluation = one seeded execution of the core workload (2-4 th
              "schedule trace in TOKEN mode, of the recorded history in FREE mode; distinct_nontrivial is the size of the union of these "
              "hashes over all shards. Where the plan has `miri.sb` jobs, one evaluation of those = one round of a store-buffering litmus test "
              "(T1: write(x); read flag or container y / T2: set flag or write(y); read x; the outcome in which neither sees the other is forbidden) "
-             "under one Miri seed; rounds are counted per (shape, write operation, read flavour, strategy).")
+             "under one Miri seed; rounds are counted per (shape, write operation, read flavour, strategy). Every core plan also has a `life.token` job (the "
+             "thread-lifecycle workload of C10/C11 with this check's operation profile) and a `weak.token` job (the core workload on containers of Weak).")
 
 WINDOW_PATHS = ["load.fast_confirmed", "load.fast_changed_debt_returned", "load.fast_changed_prepaid", "load.fallback_confirmed",
                 "load.fallback_helped", "write.helped_reader", "write.help_lost_race"]
@@ -117,6 +118,13 @@ def plan_core(pid, profile, level_text, extra_jobs=None, required=WINDOW_PATHS, 
             js.append(core_free(pid + ".free.fill14", profile, 60, alloc="quarantine", shards=1, threads=14, extra=["strat=fill"]))
         if extra_jobs:
             js += extra_jobs(tier, seed)
+        # cross-cutting reach every core check gets (second round of seeded changes: a change is filed under the property it breaks, not under
+        # the mechanism it touches): thread start / exit / node adoption under the token, and the Weak kind (empty value = dangling Weak <-> null)
+        names = set(j["name"] for j in js)
+        if pid + ".life.token" not in names:
+            js.append(life_job(pid + ".life.token", "token", execs=T(tier, 400, 20000), profile=profile))
+        if pid + ".weak.token" not in names:
+            js.append(core_token(pid + ".weak.token", profile, T(tier, 800, 30000), alloc="real", extra=["val=weak"]))
         return js
     return {
         "level": "exploration",
@@ -272,7 +280,9 @@ def life_jobs(pid, tier):
 def plan_c10():
     base = plan_core("C10", "c10", "guard identity / ownership ledger")
     core_jobs = base["jobs"]
-    base["jobs"] = lambda tier, seed: core_jobs(tier, seed)[:3] + life_jobs("C10", tier)
+    base["jobs"] = lambda tier, seed: core_jobs(tier, seed)[:3] + life_jobs("C10", tier) + [
+        core_token("C10.weak.token", "c10", T(tier, 800, 30000), alloc="real", extra=["val=weak"]),
+        life_job("C10.life.token.weak", "token", execs=T(tier, 300, 15000), alloc="real", val="weak")]
     base["rule"] = LIFE_RULE
     base["required"] = core_required(WINDOW_PATHS + ["node.reused", "life.tls_gone_ops", "life.threads_created"])
     return base
